@@ -2,7 +2,7 @@
 # usage: tools/seedcheck.sh <patch.diff> <property>... — like mutant.sh but on the separate worktree
 # /tmp/wt/sweeprepo (VERIF_REPO), so /repo itself is never touched
 set -u
-wt=/tmp/wt/sweeprepo
+wt=${WT:-/tmp/wt/sweeprepo}
 [ -d $wt ] || git -C /repo worktree add -q --detach $wt HEAD
 git -C $wt checkout -q -- . ; git -C $wt clean -fdq
 trap 'git -C $wt checkout -q -- . ; git -C $wt clean -fdq' EXIT
